@@ -139,7 +139,7 @@ def run_file(item):
     src = r[1]
     if any(c['len'] for c in src['channels'].values()):
         res['counters']['nontrivial'] = 1
-    tmp = tempfile.mkdtemp(prefix='verif_c10_', dir='/dev/shm' if os.path.isdir('/dev/shm') else None)
+    tmp = H.scratch('verif_c10_')
     try:
         spath = os.path.join(tmp, 's.tdms')
         with open(spath, 'wb') as f:
